@@ -79,18 +79,45 @@ def r_C02eval(root):
         ("R[noskipws]: a=X a=X;", lambda: S(a(), a()), {"a": "plain"}, {"skipws": False}, {"a": "1..*"}),
         ("R: a=X Other;", lambda: S(a(), ruleref("Other")), {"a": "plain"}, None, {"a": "1"}),
         ("R: a=X (Other)+;", lambda: S(a(), P(ruleref("Other"))), {"a": "plain"}, None, {"a": "1"}),
+        ("R: (('k' a=X)?)*;", lambda: Z(O(S(kw(), a()))), {"a": "plain"}, None, {"a": "0..*"}),
+        ("R: ('k' (a=X)?)+;", lambda: P(S(kw(), O(a()))), {"a": "plain"}, None, {"a": "1..*"}),
+        ("R: 'k' ((a=X)? 'l')* b=Y;", lambda: S(kw(), Z(S(O(a()), kw("l"))), a(n="b")), {"a": "plain", "b": "plain"}, None, {"a": "0..*", "b": "1"}),
     ]
     W = "TextXVisitor.visit_textx_rule"
     for src, mk, attrs, params, want in cases:
         inst += 1
         k, v, got = run(mk(), attrs, params)
         ok = k == "ret" and got == want
-        for pr in ("C02",): ob(pr, "C02.e", L, W, "%s -> %s" % (src, got if k == "ret" else "raises " + str(v)), ok)
+        prs_ = ("C02", "C08") if ")?)" in src or ")? " in src else ("C02",)          # an optional group under a repetition: reference lists (C08) depend on it too
+        for pr in prs_: ob(pr, "C02.e", L, W, "%s -> %s" % (src, got if k == "ret" else "raises " + str(v)), ok)
         if not ok:
-            out.append(Finding("C02", "C02.e", L, W, src, "for the rule  %s  the attribute multiplicities become %s; documented %s" % (src, got if k == "ret" else "(an exception %s)" % v, want), witness=src))
+            for pr in prs_: out.append(Finding(pr, "C02.e", L, W, src, "for the rule  %s  the attribute multiplicities become %s; documented %s" % (src, got if k == "ret" else "(an exception %s)" % v, want), witness=src))
         okx = not (k == "raise" and not str(v).startswith("TextX"))
         ob("C23", "C23.e", L, W, "%s compiles or fails with a TextX error" % src, okx)
         if not okx: out.append(Finding("C23", "C23.e", L, W, src, "compiling the valid rule  %s  raises a bare %s: a grammar is compiled or rejected with a TextX error, never with a Python-level exception" % (src, v), witness=src))
+    # a rule with modifiers whose body is one match: the body is wrapped, the wrapper carries the rule's name, the match stays anonymous
+    for src, body_ in (("R[noskipws]: /x+/;", E("RegExMatch", rule_name="", to_match="x+")), ("R[skipws]: 'x';", E("StrMatch", rule_name="", to_match="x"))):
+        inst += 1
+        k, v, got = run(body_, {}, {"skipws": "noskipws" in src and False or True})
+        nodes_ = v.get(".nodes") if k == "ret" and isinstance(v, dict) else None
+        okw = k == "ret" and v.get(".kind") == "Sequence" and v.get(".rule_name") == "R" and v.get(".root") is True and isinstance(nodes_, list) and len(nodes_) == 1 and nodes_[0] is body_ and body_.get(".rule_name") == "" and not body_.get(".root")
+        for pr in ("C13", "C03"): ob(pr, "C13.i", L, W, "%s: one named node per match" % src, okw)
+        if not okw:
+            for pr in ("C13", "C03"): out.append(Finding(pr, "C13.i", L, W, src, "for the match rule  %s  the rule's expression becomes %s named %r over a match named %r%s; documented: a root Sequence named R over the match itself, which stays anonymous - one parse-tree node carries the rule's name, so the rule's value is converted and its object processor called once" % (src, v.get(".kind") if isinstance(v, dict) else v, v.get(".rule_name") if isinstance(v, dict) else None, body_.get(".rule_name"), " marked as a root rule" if body_.get(".root") else ""), witness=src))
+    # rule modifiers change how blanks are treated, never what the literals of the rule are
+    for src, prm in (("R[noskipws]: 'begin' a=X 'end';", {"skipws": False}), ("R[skipws]: 'begin' a=X 'end';", {"skipws": True}), ("R[ws=' ']: 'begin' a=X 'end';", {"ws": " "})):
+        inst += 1
+        k1_ = E("RegExMatch", rule_name="", to_match="begin", to_match_regex="begin\\b", str_repr="begin", ignore_case=False); k2_ = E("RegExMatch", rule_name="", to_match="end", to_match_regex="end\\b", str_repr="end", ignore_case=False); a_ = a()
+        body_ = S(k1_, a_, k2_)
+        k, v, got = run(body_, {"a": "plain"}, prm)
+        def flat(e_, d_=0):
+            if not isinstance(e_, dict) or d_ > 6: return []
+            return [e_] + [y_ for x_ in e_.get(".nodes", []) for y_ in flat(x_, d_ + 1)]
+        fl = flat(v) if k == "ret" else []
+        okl = k == "ret" and any(x_ is k1_ for x_ in fl) and any(x_ is k2_ for x_ in fl) and any(x_ is a_ for x_ in fl) and not [x_ for x_ in fl if x_.get(".kind") in ("StrMatch", "RegExMatch") and x_ is not k1_ and x_ is not k2_ and not any(x_ is y_ for y_ in flat(a_))] and k1_.get(".to_match_regex") == "begin\\b" and k2_.get(".kind") == "RegExMatch"
+        for pr in ("C21", "C22"): ob(pr, "C21.f", L, W, "%s keeps its keyword matches" % src, okl)
+        if not okl:
+            for pr in ("C21", "C22"): out.append(Finding(pr, "C21.f", L, W, src, "for the rule  %s  (keywords compiled with a word boundary under autokwd) the rule's expression %s; documented: the modifiers are set on the rule's root expression, the matches of the body are the ones the visitor built - a keyword keeps its word boundary whatever the whitespace mode" % (src, "raises %s" % v if k == "raise" else "contains the matches %s" % [(x_.get(".kind"), x_.get(".to_match")) for x_ in fl if x_.get(".kind") in ("StrMatch", "RegExMatch")]), witness=src))
     for src, mk, attrs in (("R: (a?=X)*;", lambda: Z(a("optional")), {"a": "optional"}), ("R: 'k' (b=Y a?='x')+;", lambda: S(kw(), P(S(a(n="b"), a("optional")))), {"a": "optional", "b": "plain"})):
         inst += 1
         k, v, got = run(mk(), attrs)
